@@ -115,6 +115,20 @@ def handleQ (j : Json) : Except String Json := do
           ("e", jopt jval (l.mag.error.map (fun e => e * f)))]
       else jstr "other"
     pure (Json.mkObj [("model", jexc (jqty env) (l.to env (BU.new t))), ("spec", spec)])
+  | "toq" => do
+    -- conversion to a reference quantity `r` (value in multiples of `r`)
+    let r ← getQty (← field j "r")
+    let same := dimVecOf env l.units == dimVecOf env r.units
+    let spec := if same then
+        let f : Val := l.units.magnitude env / r.units.magnitude env
+        let v := l.mag.value * f / r.mag.value
+        let rule := match l.mag.error, r.mag.error with
+          | none, none => ruleExact
+          | some e, none => ruleEq (specUnscaleErr r.mag.value (e * f))
+          | _, _ => ruleNonneg
+        Json.mkObj [("base", jval bl), ("v", jval v), ("err", rule)]
+      else jstr "other"
+    pure (Json.mkObj [("model", jexc (jqty env) (l.toQ env r)), ("spec", spec)])
   | _ => do
     let r ← getQty (← field j "r")
     let kr := r.units.map Prod.fst
